@@ -19,6 +19,17 @@ type Recorder struct {
 	Log   []string
 	// Shape is the sequence of method names with ok/err, for call-shape classes.
 	Shape []string
+	// Before, if set, is called at the start of every Storer method (a
+	// scheduling / fault point for lanes that run on a real repository).
+	Before func(method string, arg string)
+	// Quiet disables the call log (for wrappers used only for their hook).
+	Quiet bool
+}
+
+func (r *Recorder) before(method, arg string) {
+	if r.Before != nil {
+		r.Before(method, arg)
+	}
 }
 
 var _ gitstore.Storer = (*Recorder)(nil)
@@ -37,6 +48,9 @@ func errClass(err error) string {
 }
 
 func (r *Recorder) log(method string, err error, format string, a ...any) {
+	if r.Quiet {
+		return
+	}
 	r.Log = append(r.Log, fmt.Sprintf("%s %s => %s", method, fmt.Sprintf(format, a...), errClass(err)))
 	r.Shape = append(r.Shape, method+":"+errClass(err))
 }
@@ -49,6 +63,7 @@ func hs(h githash.Hash) string {
 }
 
 func (r *Recorder) GetReference(refName string) (githash.Hash, error) {
+	r.before("GetReference", refName)
 	h, err := r.Inner.GetReference(refName)
 	if err != nil {
 		r.log("GetReference", err, "%s", refName)
@@ -59,36 +74,42 @@ func (r *Recorder) GetReference(refName string) (githash.Hash, error) {
 }
 
 func (r *Recorder) SetReference(refName string, gitID githash.Hash) error {
+	r.before("SetReference", refName)
 	err := r.Inner.SetReference(refName, gitID)
 	r.log("SetReference", err, "%s %s", refName, hs(gitID))
 	return err
 }
 
 func (r *Recorder) DeleteReference(refName string) error {
+	r.before("DeleteReference", refName)
 	err := r.Inner.DeleteReference(refName)
 	r.log("DeleteReference", err, "%s", refName)
 	return err
 }
 
 func (r *Recorder) ReadBlob(blobID githash.Hash) ([]byte, error) {
+	r.before("ReadBlob", "")
 	b, err := r.Inner.ReadBlob(blobID)
 	r.log("ReadBlob", err, "%s -> %q", hs(blobID), string(b))
 	return b, err
 }
 
 func (r *Recorder) WriteBlob(contents []byte) (githash.Hash, error) {
+	r.before("WriteBlob", "")
 	h, err := r.Inner.WriteBlob(contents)
 	r.log("WriteBlob", err, "%q -> %s", string(contents), hs(h))
 	return h, err
 }
 
 func (r *Recorder) EmptyTree() (githash.Hash, error) {
+	r.before("EmptyTree", "")
 	h, err := r.Inner.EmptyTree()
 	r.log("EmptyTree", err, "-> %s", hs(h))
 	return h, err
 }
 
 func (r *Recorder) WriteTree(entries []gitstore.TreeEntry) (githash.Hash, error) {
+	r.before("WriteTree", "")
 	h, err := r.Inner.WriteTree(entries)
 	parts := []string{}
 	for _, e := range entries {
@@ -104,6 +125,7 @@ func (r *Recorder) WriteTree(entries []gitstore.TreeEntry) (githash.Hash, error)
 }
 
 func (r *Recorder) GetAllFilesInTree(treeID githash.Hash) (map[string]githash.Hash, error) {
+	r.before("GetAllFilesInTree", "")
 	m, err := r.Inner.GetAllFilesInTree(treeID)
 	parts := []string{}
 	for p, id := range m {
@@ -115,6 +137,7 @@ func (r *Recorder) GetAllFilesInTree(treeID githash.Hash) (map[string]githash.Ha
 }
 
 func (r *Recorder) GetEntriesInTree(treeID githash.Hash) ([]gitstore.TreeEntry, error) {
+	r.before("GetEntriesInTree", "")
 	es, err := r.Inner.GetEntriesInTree(treeID)
 	parts := []string{}
 	for _, e := range es {
@@ -125,6 +148,7 @@ func (r *Recorder) GetEntriesInTree(treeID githash.Hash) ([]gitstore.TreeEntry, 
 }
 
 func (r *Recorder) GetPathIDInTree(treeID githash.Hash, treePath string) (githash.Hash, error) {
+	r.before("GetPathIDInTree", "")
 	h, err := r.Inner.GetPathIDInTree(treeID, treePath)
 	if err != nil {
 		r.log("GetPathIDInTree", err, "%s %s", hs(treeID), treePath)
@@ -135,6 +159,7 @@ func (r *Recorder) GetPathIDInTree(treeID githash.Hash, treePath string) (githas
 }
 
 func (r *Recorder) GetCommitTreeID(commitID githash.Hash) (githash.Hash, error) {
+	r.before("GetCommitTreeID", "")
 	h, err := r.Inner.GetCommitTreeID(commitID)
 	if err != nil {
 		r.log("GetCommitTreeID", err, "%s", hs(commitID))
@@ -145,12 +170,14 @@ func (r *Recorder) GetCommitTreeID(commitID githash.Hash) (githash.Hash, error) 
 }
 
 func (r *Recorder) GetCommitMessage(commitID githash.Hash) (string, error) {
+	r.before("GetCommitMessage", "")
 	m, err := r.Inner.GetCommitMessage(commitID)
 	r.log("GetCommitMessage", err, "%s -> %q", hs(commitID), m)
 	return m, err
 }
 
 func (r *Recorder) GetCommitParentIDs(commitID githash.Hash) ([]githash.Hash, error) {
+	r.before("GetCommitParentIDs", "")
 	ps, err := r.Inner.GetCommitParentIDs(commitID)
 	parts := []string{}
 	for _, p := range ps {
@@ -161,6 +188,7 @@ func (r *Recorder) GetCommitParentIDs(commitID githash.Hash) ([]githash.Hash, er
 }
 
 func (r *Recorder) GetCommitsBetweenRange(commitNewID, commitOldID githash.Hash) ([]githash.Hash, error) {
+	r.before("GetCommitsBetweenRange", "")
 	cs, err := r.Inner.GetCommitsBetweenRange(commitNewID, commitOldID)
 	parts := []string{}
 	for _, p := range cs {
@@ -171,18 +199,21 @@ func (r *Recorder) GetCommitsBetweenRange(commitNewID, commitOldID githash.Hash)
 }
 
 func (r *Recorder) GetFilePathsChangedByCommit(commitID githash.Hash) ([]string, error) {
+	r.before("GetFilePathsChangedByCommit", "")
 	ps, err := r.Inner.GetFilePathsChangedByCommit(commitID)
 	r.log("GetFilePathsChangedByCommit", err, "%s -> %q", hs(commitID), ps)
 	return ps, err
 }
 
 func (r *Recorder) KnowsCommit(commitID, ancestorID githash.Hash) (bool, error) {
+	r.before("KnowsCommit", "")
 	b, err := r.Inner.KnowsCommit(commitID, ancestorID)
 	r.log("KnowsCommit", err, "%s %s -> %v", hs(commitID), hs(ancestorID), b)
 	return b, err
 }
 
 func (r *Recorder) GetMergeTree(commitAID, commitBID githash.Hash) (githash.Hash, error) {
+	r.before("GetMergeTree", "")
 	h, err := r.Inner.GetMergeTree(commitAID, commitBID)
 	if err != nil {
 		r.log("GetMergeTree", err, "%s %s", hs(commitAID), hs(commitBID))
@@ -193,6 +224,7 @@ func (r *Recorder) GetMergeTree(commitAID, commitBID githash.Hash) (githash.Hash
 }
 
 func (r *Recorder) GetTagTarget(tagID githash.Hash) (githash.Hash, error) {
+	r.before("GetTagTarget", "")
 	h, err := r.Inner.GetTagTarget(tagID)
 	if err != nil {
 		r.log("GetTagTarget", err, "%s", hs(tagID))
@@ -203,12 +235,14 @@ func (r *Recorder) GetTagTarget(tagID githash.Hash) (githash.Hash, error) {
 }
 
 func (r *Recorder) GetObjectSignature(objectID githash.Hash) ([]byte, []byte, error) {
+	r.before("GetObjectSignature", "")
 	p, s, err := r.Inner.GetObjectSignature(objectID)
 	r.log("GetObjectSignature", err, "%s -> %q %q", hs(objectID), string(p), strings.TrimSpace(string(s)))
 	return p, s, err
 }
 
 func (r *Recorder) Commit(treeID githash.Hash, targetRef, message string, sign bool) (githash.Hash, error) {
+	r.before("Commit", targetRef)
 	h, err := r.Inner.Commit(treeID, targetRef, message, sign)
 	if err != nil {
 		r.log("Commit", err, "%s %s %q %v", hs(treeID), targetRef, message, sign)
@@ -219,6 +253,7 @@ func (r *Recorder) Commit(treeID githash.Hash, targetRef, message string, sign b
 }
 
 func (r *Recorder) CommitUsingSpecificKey(treeID githash.Hash, targetRef, message string, key []byte) (githash.Hash, error) {
+	r.before("CommitUsingSpecificKey", targetRef)
 	h, err := r.Inner.CommitUsingSpecificKey(treeID, targetRef, message, key)
 	if err != nil {
 		r.log("CommitUsingSpecificKey", err, "%s %s %q", hs(treeID), targetRef, message)
@@ -237,6 +272,7 @@ func (r *Recorder) LookupConfig(key gitstore.ConfigKey) (string, bool, error) {
 }
 
 func (r *Recorder) ResetDueToError(cause error, refName string, commitID githash.Hash) error {
+	r.before("ResetDueToError", "")
 	err := r.Inner.ResetDueToError(cause, refName, commitID)
 	r.log("ResetDueToError", nil, "%s %s", refName, hs(commitID))
 	return err
